@@ -22,4 +22,17 @@ theorem belt_kwp_laws (θ x : Bytes) (h : 32 ≤ x.length) :
   unfold beltKwpD beltWbl
   rw [h2]
 
+/-- belt-WBL under a fixed key is injective and length preserving on buffers of at least 32 octets (it has the
+left inverse beltWBLStepD): the hypotheses `hlen`, `hinj` of the nonce-loop theorems (PropsNonce.lean) hold
+for the belt model on the 2l-bit strings, l ≥ 128 -/
+theorem belt_wbl_injective (θ a b : Bytes) (ha : 32 ≤ a.length) (hb : 32 ≤ b.length)
+    (h : beltWbl θ a = beltWbl θ b) : a = b ∧ (beltWbl θ a).length = a.length := by
+  obtain ⟨hda, hla⟩ := Bee2V.C01.wblStepD_wblStepE Bee2V.C01.beltCipher Bee2V.C01.length_blockEncr
+    (Bee2V.C01.fmtKey θ) a ha
+  obtain ⟨hdb, _⟩ := Bee2V.C01.wblStepD_wblStepE Bee2V.C01.beltCipher Bee2V.C01.length_blockEncr
+    (Bee2V.C01.fmtKey θ) b hb
+  unfold beltWbl at h
+  refine ⟨?_, hla⟩
+  rw [← hda, ← hdb, h]
+
 end Bee2V.C02
